@@ -359,7 +359,7 @@ def run(res, proof):
     del w
     # the unit / rate functions as translated from the working tree (Gen/PyUnits.lean) against the real ones
     from .pyunits_stream import source_derived_pyunits
-    source_derived_pyunits(res, proof)
+    core.run_stream(source_derived_pyunits, res, proof)
 
 
 def replay(body, repo):
